@@ -665,8 +665,10 @@ namespace bloch::runtime {
                     return thisObj->fields[field->offset];
             }
             auto [field, owner] = findStaticFieldWithOwner(m_currentClassCtx, name);
-            if (field && owner && field->offset < owner->staticStorage.size())
+            if (field && owner && field->offset < owner->staticStorage.size()) {
+                initStaticFields(owner);  // no-op unless another static initialiser got here first
                 return owner->staticStorage[field->offset];
+            }
         }
         auto clsIt = m_classTable.find(name);
         if (clsIt != m_classTable.end()) {
@@ -2623,6 +2625,10 @@ namespace bloch::runtime {
                 RuntimeMethod* method = findMethod(obj.classRef, memAcc->member);
                 if (field && owner) {
                     size_t idx = field->offset;
+                    // A static initialiser may read a static of a class whose own initialisers
+                    // have not run yet: run them on demand so the result does not depend on the
+                    // order in which classes happen to be initialised.
+                    initStaticFields(owner);
                     if (idx < owner->staticStorage.size())
                         return owner->staticStorage[idx];
                 } else if (method) {
